@@ -23,6 +23,17 @@ fn id_sets(doc: &Doc) -> (String, BTreeSet<String>) {
     (ids, del)
 }
 
+/// every integrated unit (items incl. tombstones, collected ranges; holes excluded)
+fn unit_ids(doc: &Doc) -> BTreeSet<(u64, u32)> {
+    let vs = store_dump(doc); let mut s = BTreeSet::new();
+    for (c, bl) in &vs.blocks { for b in bl { match b {
+        yrs::verif::VBlock::Item(i) => for j in 0..i.len { s.insert((*c, i.id.clock + j)); },
+        yrs::verif::VBlock::GC(id, l) => for j in 0..*l { s.insert((*c, id.clock + j)); },
+        _ => {}
+    } } }
+    s
+}
+
 fn run_case(seed: u64, index: u64, md: &mut Model, rep: &mut Report) {
     let mut r = Rng::for_case(seed, 107, index);
     let gc = r.chance(1, 2);
@@ -57,6 +68,7 @@ fn run_case(seed: u64, index: u64, md: &mut Model, rep: &mut Report) {
     leader.drain1(); leader.drain2();
     for step in 0..steps {
         let (ids_before, del_before) = id_sets(&leader.doc);
+        let units_before = unit_ids(&leader.doc);
         let mut kind = r.below(12);
         // an editor session also has transactions that leave nothing visible (composition that is cancelled: insert and remove in
         // one transaction), often several in a row: with gc on they leave adjacent collected tombstones that get squashed
@@ -109,6 +121,16 @@ fn run_case(seed: u64, index: u64, md: &mut Model, rep: &mut Report) {
         let e1 = leader.drain1(); let e2 = leader.drain2();
         let (ids_after, del_after) = id_sets(&leader.doc);
         let changed = ids_before != ids_after || del_before != del_after;
+        // minimal: the event carries no block that was integrated before the transaction (a block written again travels without
+        // the delete set entries that came with it: whoever hears only this event sees deleted content alive)
+        if let Some(ev) = e1.first() {
+            use yrs::updates::decoder::Decode;
+            if let Ok(u) = yrs::Update::decode_v1(ev) {
+                let again: Vec<String> = u.insertions(true).iter().flat_map(|(c, rs)| { let c = c.get(); rs.iter().flat_map(move |r| (r.start..r.end).map(move |k| (c, k))).collect::<Vec<_>>() }).filter(|x| units_before.contains(x)).take(6).map(|(c, k)| format!("{:x}:{:x}", c, k)).collect();
+                rep.count("events_checked_for_blocks_written_again");
+                if !again.is_empty() { failures.push(json!({"class": "event-writes-blocks-again-that-were-integrated-before", "step": step, "what": what, "ids": again, "event": crate::model::hex(ev)})); }
+            }
+        }
         rep.count(if changed { "txns_changing" } else { "txns_not_changing" });
         if changed && (e1.len() != 1 || e2.len() != 1) {
             failures.push(json!({"class": "changed-but-event-count-wrong", "step": step, "what": what, "v1_events": e1.len(), "v2_events": e2.len(),
